@@ -333,7 +333,7 @@ def report(chk, rows, texts, cases, verdicts, notjudged):
 
 def run(chk):
     cfg = "Outline_MC_quick.cfg" if chk.quick() else "Outline_MC_thorough.cfg"
-    r = chk.tlc("Outline_MC", cfg, timeout=600 if chk.quick() else 1500, workers=WORKERS, env=TLC_ENV)
+    r = chk.tlc("Outline_MC", cfg, timeout=1200 if chk.quick() else 2400, workers=WORKERS, env=TLC_ENV)
     for name in r.violated:
         chk.violation("C06.design." + name, "design:%s" % name, "TLC: invariant %s violated in Outline_MC (%s)" % (name, cfg))
     emitted = [norm(json.loads(t[1])) for t in r.by_tag("CASE")]
